@@ -210,6 +210,7 @@ struct ScenarioRec {
     default_reply: Value,
     notify: Notify,
     capture: Option<usize>, // EXTENSIONS: Some(n) = streaming mock, keep the first n bytes per connection
+    read_pause_ms: u64,     // EXTENSIONS (C15 round 4): a slow host -- the streaming mock sleeps this long after every read (of <= 256 KiB)
 }
 
 static CURRENT: Mutex<Option<Arc<ScenarioRec>>> = Mutex::new(None);
@@ -563,6 +564,9 @@ async fn mock_conn_streaming(stream: &mut TcpStream, rec: &Arc<ScenarioRec>, ix:
             Ok(0) | Err(_) => break,
             Ok(n) => n,
         };
+        if rec.read_pause_ms > 0 {
+            tokio::time::sleep(Duration::from_millis(rec.read_pause_ms)).await;
+        }
         {
             let mut conns = rec.conns.lock().unwrap();
             let c = &mut conns[ix];
@@ -984,7 +988,8 @@ async fn run_ops(ops: Option<&Value>, shared: &SharedState, env: &Env, snaps: &M
                 let handle = tokio::runtime::Handle::current();
                 let lbl = label.clone();
                 let ok_adds = tokio::task::spawn_blocking(move || {
-                    let barrier = std::sync::Barrier::new(threads);
+                    // a spinning rendezvous (a futex barrier wakes its waiters one after the other)
+                    let arrived = std::sync::atomic::AtomicUsize::new(0);
                     let oks = std::sync::atomic::AtomicUsize::new(0);
                     std::thread::scope(|sc| {
                         for _ in 0..threads {
@@ -1008,7 +1013,15 @@ async fn run_ops(ops: Option<&Value>, shared: &SharedState, env: &Env, snaps: &M
                                         elapsedTime: 0,
                                         errorDetails: String::new(),
                                     };
-                                    barrier.wait();
+                                    arrived.fetch_add(1, Ordering::SeqCst);
+                                    let mut spins = 0u64;
+                                    while arrived.load(Ordering::SeqCst) < (k + 1) * threads {
+                                        spins += 1;
+                                        if spins % 20000 == 0 {
+                                            std::thread::yield_now();
+                                        }
+                                        std::hint::spin_loop();
+                                    }
                                     if handle.block_on(st.add_one_failed_connection_summary(summary)).is_ok() {
                                         oks.fetch_add(1, Ordering::SeqCst);
                                     }
@@ -1426,6 +1439,11 @@ async fn run_connection(
                 None => stream.write_all(b).await,
             };
             let _ = stream.flush().await;
+            // EXTENSIONS (C14 round 4): "read_delay_ms": n -- a slow reader: nothing is read from the socket for n ms after the request
+            // has been written (the proxy may well have closed its side by then)
+            if let Some(ms) = reqs[i].get("read_delay_ms").and_then(|x| x.as_u64()) {
+                tokio::time::sleep(Duration::from_millis(ms)).await;
+            }
             // EXTENSIONS (C14): "abort_after": n -- read n bytes of the response, then ABANDON the connection (dropped at once,
             // nothing drained: the proxy sees a client that went away in the middle of a download)
             if let Some(n) = reqs[i].get("abort_after").and_then(|x| x.as_u64()) {
@@ -1520,6 +1538,7 @@ async fn run_scenario(sc: Value, env: Arc<Env>) -> Value {
         default_reply: sc.get("default_reply").cloned().unwrap_or(json!({})),
         notify: Notify::new(),
         capture: sc.get("upstream_capture").and_then(|x| x.as_u64()).map(|n| n as usize),
+        read_pause_ms: sc.get("upstream_read_pause_ms").and_then(|x| x.as_u64()).unwrap_or(0),
     });
     *CURRENT.lock().unwrap() = Some(rec.clone());
 
